@@ -81,7 +81,8 @@ def threshold_text(rng: random.Random) -> str:
     """a text whose length sits at a size the source has started to mention, with metacharacters in it"""
     n = rng.choice(THRESHOLDS) + rng.choice([-1, 0, 0, 1, 1, 7])
     body = rng.choice(["<b>&amp;\"'", "a<b & c>d ", "x&y<z> ", "&lt;i&gt;\r\n"])
-    return (body * (n // len(body) + 1))[:max(n, 1)]
+    pre = rng.choice(EXTRA) if EXTRA and rng.random() < 0.6 else ""
+    return pre + (body * (n // len(body) + 1))[:max(n - len(pre), 1)]
 
 
 def extra_or(rng: random.Random, pool, p: float = 0.3):
